@@ -193,13 +193,7 @@ def refs (ps : List Piece) : List Str := ps.filterMap Piece.ref
 
 /-! ## `substitute` / `safe_substitute` against a mapping: which calls raise -/
 
-/-- `sys.get_int_max_str_digits()`, Python 3.12 default -/
-def intMaxStrDigits : Nat := 4300
-
-/-- `str(v)`: raises `ValueError` for an `int` of more than 4300 digits, works otherwise -/
-def strCheck : Value → Except PyErr Unit
-  | .int n => if n.natAbs < 10 ^ intMaxStrDigits then .ok () else .error .valueError
-  | _ => .ok ()
+/-! `str(v)` is `LogFormat.strCheck` (with `LogFormat.intMaxStrDigits`): shared with the classic style. -/
 
 /-- `convert(mo)` of `Template.substitute` -/
 def substPiece (d : Dict) : Piece → Except PyErr Unit
